@@ -13,6 +13,9 @@ from harness import call_gen as G
 NCELLS = 8
 CB_STRUCTS = ["sA", "sB", "sC", "sD", "sE", "sF", "sG", "sH", "sI", "sJ"]     # no pointer fields
 ARG_TYPES = list(G.INTS) + ["bool", "char", "f32", "f64", "p_i32"] + CB_STRUCTS
+# extern "Python" only (libffi has no complex types, ffi.callback() refuses them); long double for both
+EP_ARG_TYPES = ARG_TYPES + ["cf", "cd", "ld"]
+CB_ARG_TYPES = ARG_TYPES + ["ld"]
 
 
 def c_literal(t, v):
@@ -24,6 +27,11 @@ def c_literal(t, v):
         return "1" if v else "0"
     if t == "char":
         return "(char)0x%02x" % v
+    if t in ("cf", "cd"):
+        part = "f32" if t == "cf" else "f64"
+        return "__builtin_complex(%s, %s)" % (c_literal(part, v[0]), c_literal(part, v[1]))
+    if t == "ld":
+        return "(long double)" + c_literal("f64", v)
     if t in ("f32", "f64"):
         if v != v:
             raise ValueError("NaN")
@@ -40,6 +48,11 @@ def c_literal(t, v):
 
 
 def rand_cvalue(rng, t):
+    if t in ("cf", "cd"):
+        part = "f32" if t == "cf" else "f64"
+        return [rand_cvalue(rng, part), rand_cvalue(rng, part)]
+    if t == "ld":
+        return rand_cvalue(rng, "f64")
     if t in G.INTS:
         return G.rand_in(rng, t)
     if t == "bool":
@@ -61,6 +74,11 @@ def rand_cvalue(rng, t):
 
 def tla_cvalue(t, v):
     """The TLA C value (Call.tla section 2) of a table entry."""
+    if t in ("cf", "cd"):
+        part = "f32" if t == "cf" else "f64"
+        return {"re": tla_cvalue(part, v[0]), "im": tla_cvalue(part, v[1])}
+    if t == "ld":
+        return tla_cvalue("f64", v)
     if t in G.INTS:
         return G.twos(v, G.INTS[t][1])
     if t == "bool":
@@ -131,7 +149,13 @@ def value_desc(rng, rt, cls, b):
     if rt == "char":
         return {"ok": ["bytes", [255]], "ok2": ["bytes", [rng.randint(0, 255)]], "err": ["bytes", [rng.randint(1, 255)]],
                 "ovf": ["bytes", [65, 66]], "badtype": ["int", "1"]}[cls]
-    if rt in ("f32", "f64"):
+    if rt in ("cf", "cd"):
+        if cls in ("ok", "err"):
+            return ["complex", G.fhex(G.rand_float_val(rng)), G.fhex(G.rand_float_val(rng))]
+        if cls == "ok2":
+            return ["float", G.fhex(G.rand_float_val(rng))]
+        return ["bytes", [49]]
+    if rt in ("f32", "f64", "ld"):
         if cls in ("ok", "err"):
             return ["float", G.fhex(G.rand_float_val(rng))]
         if cls == "ok2":
